@@ -796,6 +796,10 @@ func (a *AMF) onUplinkNAS(l []ieView) [][]byte {
 			a.violate("ulnas/not-5gmm", "uplink NAS message %x", plain)
 			return nil
 		}
+		if plain[1] != 0x00 {
+			// inside the protected message sits a plain one: security header type 0000, spare half octet 0000
+			a.violate("ulnas/second-octet-of-the-plain-message", "plain 5GMM message %x inside the protected one has %#x as its second octet", plain[:3], plain[1])
+		}
 		switch plain[2] {
 		case 0x67:
 			return a.onULNASTransport(u, plain)
